@@ -117,6 +117,17 @@ pub struct Ctx {
 
 /// Upper bound on zero-width elements the harness visitor accepts before it abandons the case;
 /// much smaller under the interpreter, where every element costs milliseconds.
+thread_local! {
+    static OWNED_TURN: std::cell::Cell<u32> = const { std::cell::Cell::new(0) };
+}
+fn owned_turn() -> bool {
+    OWNED_TURN.with(|c| {
+        let n = c.get().wrapping_add(1);
+        c.set(n);
+        n % 3 == 0
+    })
+}
+
 pub const ZERO_WIDTH_FLOOD_LIMIT: usize = if cfg!(miri) { 2_000 } else { 300_000 };
 
 impl Ctx {
@@ -186,8 +197,22 @@ impl<'de, 's> DeserializeSeed<'de> for Seed<'s> {
             Shape::F32 => d.deserialize_f32(v),
             Shape::F64 => d.deserialize_f64(v),
             Shape::Char => d.deserialize_char(v),
-            Shape::Str => d.deserialize_str(v),
-            Shape::Bytes => d.deserialize_bytes(v),
+            // every third request asks for the OWNED form (deserialize_string / deserialize_byte_buf): a format may
+            // serve the two through different code
+            Shape::Str => {
+                if owned_turn() {
+                    d.deserialize_string(v)
+                } else {
+                    d.deserialize_str(v)
+                }
+            }
+            Shape::Bytes => {
+                if owned_turn() {
+                    d.deserialize_byte_buf(v)
+                } else {
+                    d.deserialize_bytes(v)
+                }
+            }
             Shape::Option(_) => d.deserialize_option(v),
             Shape::Unit => d.deserialize_unit(v),
             Shape::UnitStruct(n) => d.deserialize_unit_struct(n, v),
